@@ -127,6 +127,20 @@ int main(){
 		std::vector<std::string> t = vh::tokens(line);
 		if(t.empty()){ std::cout << "\n"; continue; }
 		g_den = 1;
+		// scale classes: a line may start with the token e<k> (k an integer, |k| <= 120): the real algorithms get every
+		// coordinate (points AND reference) multiplied by 2^k - exact in binary floating point, and every comparison, difference
+		// and product inside the algorithms stays exact (no over-/underflow: |coordinate| < 2^53, m <= 6) - the oracles work on
+		// the integers, volumes are reported divided by 2^(k*m) (exact). Order-theoretic results must be IDENTICAL to the
+		// unscaled line, volumes scale by exactly 2^(k*m) (rankSpec_scale, hvSpec_scale_shift, hvQ_scale): any absolute
+		// tolerance hidden in the code shows up at some scale
+		if(t[0].size() > 1 && t[0][0] == 'e' && t.size() > 1 && (t[0][1] == '-' || (t[0][1] >= '0' && t[0][1] <= '9'))){
+			bool oke = true; int ke = 0;
+			std::size_t b0 = t[0][1] == '-' ? 2 : 1;
+			if(b0 == t[0].size() || t[0].size() > b0 + 3) oke = false;
+			for(std::size_t c = b0; oke && c < t[0].size(); ++c){ if(t[0][c] < '0' || t[0][c] > '9'){ oke = false; break; } ke = ke * 10 + (t[0][c] - '0'); }
+			if(!oke || ke > 120 || t[1] == "hoys" || t[1] == "dca" || t[1] == "dcb"){ std::cout << "bad-op\n"; continue; }
+			g_den = std::ldexp(1.0, t[0][1] == '-' ? ke : -ke); t.erase(t.begin());
+		}else
 		if(t[0].size() > 1 && t[0][0] == 'q' && t.size() > 1){
 			long long dq = 0; bool okq = true;
 			for(std::size_t c = 1; c < t[0].size(); ++c){ if(t[0][c] < '0' || t[0][c] > '9'){ okq = false; break; } dq = dq * 10 + (t[0][c] - '0'); }
